@@ -698,6 +698,8 @@ class Facts:
             return False                  # (methods of an impl of a trait have the trait's visibility: impls of private traits are helpers too)
         if any(helper_file(cf.file, b) for b in base_files):
             return True
+        if cf.kind == "Fn" and cf.vis == "in mahf" and cf.file.startswith("src/"):
+            return True      # a crate-private FREE function is plumbing shared between modules (`phases::lifecycle` called from configuration.rs)
         scope = cf.vis[3:] if isinstance(cf.vis, str) and cf.vis.startswith("in ") else None
         if scope and "::" in scope:
             for b in base_files:
